@@ -761,7 +761,7 @@ def _step(ctx, g, w, coll, loaders, tracker, op, budget_mode, faulty_pkgs, all_p
             except (KeyError, g.AliasResolutionError, g.CyclicAliasError) as e:
                 # only the final lookup of a dotted object path may fail like this: the object does not exist, or
                 # the path goes through an alias that reports an alias error when dereferenced
-                if "objspec" not in op or "_post_load" not in core.griffe_frames(e, limit=30) or "expand_" in " ".join(core.griffe_frames(e, limit=30)):
+                if "objspec" not in op or "_post_load" not in core.griffe_frames(e, limit=400) or "expand_" in " ".join(core.griffe_frames(e, limit=400)):
                     ctx.fail("I1-load-raised", f"load({op.get('objspec', op['pkg'])}) raised {type(e).__name__}: {w.norm(str(e))[:200]}", exc=e, tags=_exc_tags(e, tracker))
                     return False
                 ctx.log("load", (op["objspec"], op["loader"], type(e).__name__))
